@@ -1337,6 +1337,9 @@ class Engine(object):
       # (which won't see any changes in case of an error).
       log.info("Failed to apply useractions; reverting: %r", e)
       self._undo_to_checkpoint(checkpoint)
+      # Records marked for auto-removal by formulas evaluated during the failed bundle (e.g. a
+      # summary row whose group was empty for a moment) must not be removed by the next bundle.
+      self.docmodel._auto_remove_set.clear()
 
       # Check schema consistency again. If this fails, something is really wrong (we tried to go
       # back to a good state but failed). We'll just report it loudly.
